@@ -34,10 +34,20 @@ _CALLS = ["step", "step", "forward", "step12", "inverse", "stages", "reset", "re
 
 
 def strategy(tier):
+  base = _strategy(tier)
+  # 1 case in 6: many kinematic trees densely linked by constraint rows, sleeping with islands (island discovery: edge lists, flood-fill work stack, cycles)
+  dense = _strategy(
+    tier,
+    cfg_over=dict(nroot=st.sampled_from([5, 6, 7, 8]), maxdepth=st.integers(0, 1), equalities=st.sampled_from([10, 14, 18]), eq_menu=st.sampled_from([["connect"], ["connect", "weld"]]), p_eq_inactive=0.0,
+                  tendons=0, spatial_tendons=0, actuators=st.integers(0, 1)),
+    over=dict(sleep=st.just(True), island=st.just(True), nworld=st.sampled_from([1, 2])),
+  )
+  return st.one_of(base, base, base, base, base, dense)
+
+
+def _strategy(tier, cfg_over=None, over=None):
   cap = st.sampled_from(["ample", "ample", "zero", "one", "tiny", "near"])
-  return st.fixed_dictionaries(
-    dict(
-      cfg=gen.rich_cfg(
+  cfg_kw = dict(
         nroot=st.integers(1, 4),
         geom_menu=st.sampled_from([["sphere", "capsule", "box"], ["box", "mesh", "ellipsoid", "cylinder", "sphere"], ["sphere"], ["capsule", "box"]]),
         equalities=st.integers(0, 3),
@@ -53,9 +63,12 @@ def strategy(tier):
         delays=st.booleans(),
         margin=st.booleans(),
         mocap=st.integers(0, 1),
-        sleep_policy=st.sampled_from([None, ["auto", "never", "allowed", "init"]]),
+        sleep_policy=st.sampled_from([None, None, None, ["auto", "never", "allowed", "init"]]),  # put_model accepts only "auto": the others are clean rejections
         nkey=0,
-      ),
+  )
+  cfg_kw.update(cfg_over or {})
+  d = dict(
+      cfg=gen.rich_cfg(**cfg_kw),
       opt=gen.option_strategy(),
       sleep=st.sampled_from([False, False, True]),
       island=st.booleans(),
@@ -69,8 +82,9 @@ def strategy(tier):
       calls=st.lists(st.sampled_from(_CALLS), min_size=2, max_size=6),
       seed=st.integers(0, 10**6),
       sigma=st.sampled_from([0.05, 0.3]),
-    )
   )
+  d.update(over or {})
+  return st.fixed_dictionaries(d)
 
 
 def _cap(kind, need, rng_i):
@@ -101,6 +115,10 @@ def check(case, rec):
     flags["sleep"] = "enable"
   if not case["island"]:
     flags["island"] = "disable"
+  if cfg.get("margin") and {"box", "mesh"} & set(cfg.get("geom_menu", [])):
+    flags["multiccd"] = "disable"  # put_model rejects margins on box/mesh pairs with MULTICCD (and on box-box with NATIVECCD): keep such models in the domain
+    if "box" in cfg.get("geom_menu", []):
+      flags["nativeccd"] = "disable"
   if flags:
     opt["flags"] = flags
   cfg["option"] = opt
